@@ -8,11 +8,12 @@ from . import common as C
 from . import debiasers, realruns as R
 
 GEN_FILES = ["GenScalars", "GenUtils"]
-TRUSTED = ["C02: shift-equivariance of ScaledDistributionMapping (absolute), CDFt, QDM with interpolated ecdf and ISIMIP (additive) is searched on the implementation, not proved (needs the affine-equivariance library for sort/ecdf/quantiles)",
+TRUSTED = ["C02: ISIMIP (additive) is searched on the implementation, not proved; ScaledDistributionMapping (absolute) is proved on the hand model Model/SDM.v (tied by correspondence K15), CDFt / non-parametric QM / QDM on the regenerated per-window methods",
            "C02: SciPy's norm.fit is shift-equivariant (assumption about SciPy, exercised by the search)"]
 
 def correspondence(res, tier, seed):
     debiasers.k5(res, tier, seed, tag="k5c02")
+    debiasers.k15(res, tier, seed, tag="k15c02")
     res.rule = ("K5 as for C03; search: eight debiasers x window mode (none/days/years) x shifts c in {0.5, -3, 40} or factors k in {0.5, 3}; "
                 "distinct/non-trivial = distinct (debiaser, configuration, window mode) classes")
 
